@@ -282,7 +282,12 @@ func genPrinterScope(repo string) (string, error) {
 		scoped, global := psRenderCalls(fd)
 		lean := strings.ToLower(name[:1]) + name[1:]
 		fmt.Fprintf(&b, "/-- printer.go `(*Printer).%s`: rendering calls that go through the receiver (the scoped printer) -/\ndef %sScoped : Nat := %d\n", name, lean, scoped)
-		fmt.Fprintf(&b, "/-- … and those that leave it (one-argument `x.Append(b)`, `ObjectString`, package-level `Append`, the global `printer`), with the case they are in -/\ndef %sGlobal : List String := %s\n\n", lean, psLeanStrList(global))
+		labels := make([]string, len(global))
+		for i, g := range global {
+			labels[i] = g[:strings.Index(g, ": ")]
+		}
+		fmt.Fprintf(&b, "/-- … and the cases in which a call leaves it (one-argument `x.Append(b)`, `ObjectString`, package-level `Append`, the global `printer`): %s -/\ndef %sGlobal : List String := %s\n\n",
+			strings.ReplaceAll(strings.Join(global, "; "), "-/", "- /"), lean, psLeanStrList(labels))
 	}
 
 	// ---- types with a Readably(b []byte, p *Printer) method
@@ -383,14 +388,45 @@ func genPrinterScope(repo string) (string, error) {
 	if sc == nil {
 		return "", fmt.Errorf("code.go: (*reader).scoped not found")
 	}
-	text := strings.Join(strings.Fields(nodeText(sc.Body)), " ")
-	follows := 0
-	for _, pat := range []string{"r.rbase = int(num) r.intRx = intRxs[num] r.ratioRx = ratioRxs[num]", "r.rbase = 10 r.intRx = intRxs[10] r.ratioRx = ratioRxs[10]"} {
-		if strings.Contains(text, pat) {
-			follows++
+	consistent, inconsistent := 0, 0
+	ast.Inspect(sc.Body, func(n ast.Node) bool {
+		blk, ok := n.(*ast.BlockStmt)
+		if !ok {
+			return true
 		}
-	}
-	fmt.Fprintf(&b, "/-- code.go `scoped`: rbase, intRx and ratioRx are set together, from the default 10 and from *read-base* (2 = both places) -/\ndef regexFollowsReadBase : Nat := %d\n\n", follows)
+		got := map[string]string{}
+		for _, st := range blk.List {
+			as, ok := st.(*ast.AssignStmt)
+			if !ok || len(as.Lhs) != 1 || len(as.Rhs) != 1 {
+				continue
+			}
+			rhs := as.Rhs[0]
+			switch exprStr(as.Lhs[0]) {
+			case "r.rbase":
+				if call, ok := rhs.(*ast.CallExpr); ok && len(call.Args) == 1 && exprStr(call.Fun) == "int" {
+					rhs = call.Args[0]
+				}
+				got["rbase"] = exprStr(rhs)
+			case "r.intRx", "r.ratioRx":
+				ix, ok := rhs.(*ast.IndexExpr)
+				table := map[string]string{"r.intRx": "intRxs", "r.ratioRx": "ratioRxs"}[exprStr(as.Lhs[0])]
+				if !ok || exprStr(ix.X) != table {
+					got[exprStr(as.Lhs[0])] = "?" + exprStr(rhs)
+				} else {
+					got[exprStr(as.Lhs[0])] = exprStr(ix.Index)
+				}
+			}
+		}
+		if len(got) > 0 {
+			if len(got) == 3 && got["rbase"] == got["r.intRx"] && got["rbase"] == got["r.ratioRx"] {
+				consistent++
+			} else {
+				inconsistent++
+			}
+		}
+		return true
+	})
+	fmt.Fprintf(&b, "/-- code.go `scoped`: blocks that set rbase, intRx = intRxs[·] and ratioRx = ratioRxs[·] together from the same value, and blocks that set only some of them or from different values -/\ndef readBaseBlocksConsistent : Nat := %d\ndef readBaseBlocksInconsistent : Nat := %d\n\n", consistent, inconsistent)
 
 	// ---- pkg/swank/wire.go
 	wf, err := psParse(fset, filepath.Join(repo, "pkg", "swank", "wire.go"))
